@@ -221,6 +221,33 @@ func oracle(text string) (reok, rebad []string, sp string) {
 	return
 }
 
+// uspaces lists the white-space runes >= 0x80 among the runes of s decoded as UTF-8 (what the
+// property means by "contains a space"); unlike oracle's sp it does not read bytes as Latin-1.
+func uspaces(s string) string {
+	m := map[rune]bool{}
+	for _, r := range s {
+		if r >= 0x80 && unicode.IsSpace(r) {
+			m[r] = true
+		}
+	}
+	return runeList(m)
+}
+
+// bareUnits: characters whose UTF-8 encoding contains the bytes 0x85 / 0xA0 (the Latin-1 spaces
+// NEL and NBSP when a byte is misread as a rune), raw such bytes, and ordinary word characters.
+var bareUnits = []string{"à", "Р", "х", "ą", "慠", "\x85", "\xa0", "é", "Ā", "…", "a", "b", "z", "0", "/", "_", ".", "=", "-", "*", "x"}
+
+// uniSeps: what separates words: ASCII blanks and genuine Unicode spaces.
+var uniSeps = []string{" ", "\t", "\u0085", "\u00a0", "\u2003", "\u3000", "\u2003 ", " \u00a0", "\n\u3000"}
+
+func unitWord(r *hx.Rand, n int) string {
+	var b strings.Builder
+	for i := 0; i < n; i++ {
+		b.WriteString(hx.Pick(r, bareUnits))
+	}
+	return b.String()
+}
+
 func runeList(m map[rune]bool) string {
 	if len(m) == 0 {
 		return "-"
@@ -452,7 +479,7 @@ func bareCase(w string) {
 	if mine() {
 		cid := id - 1
 		_, _, sp := oracle(w)
-		hx.Printf("case %d kind=bare w=%s sp=%s tag=bare\n", cid, hx.HexS(w), sp)
+		hx.Printf("case %d kind=bare w=%s sp=%s usp=%s tag=bare\n", cid, hx.HexS(w), sp, uspaces(w))
 		guarded(cid, func(out *strings.Builder) {
 			val, key, pk := "err", "skip", "skip"
 			if f, err := benchproc.NewFilter("k:" + w); err == nil {
@@ -606,7 +633,7 @@ func fixedCase(key string, vals []string) {
 	if mine() {
 		cid := id - 1
 		_, _, sp := oracle(text)
-		hx.Printf("case %d kind=fixed key=%s vals=%s other=%s sp=%s tag=fixed\n", cid, hx.HexS(key), hx.HexListS(vals), hx.HexS(other), sp)
+		hx.Printf("case %d kind=fixed key=%s vals=%s other=%s sp=%s usp=%s tag=fixed\n", cid, hx.HexS(key), hx.HexListS(vals), hx.HexS(other), sp, uspaces(text))
 		guarded(cid, func(out *strings.Builder) {
 			star, _ := benchproc.NewFilter("*")
 			var pp benchproc.ProjectionParser
@@ -644,16 +671,55 @@ func genFixed(r *hx.Rand) {
 		}
 		return string(b)
 	}
-	key := hx.Pick(r, []string{"a", "dir", "a/b", "k.x", "goos"})
+	key := hx.Pick(r, []string{"a", "dir", "a/b", "k.x", "goos", "à", "kР", "х慠"})
 	if r.Chance(1, 3) {
 		key = "k" + word(false)
 	}
 	n := 1 + r.Intn(3)
 	var vals []string
 	for i := 0; i < n; i++ {
-		vals = append(vals, word(true))
+		if r.Chance(1, 2) {
+			vals = append(vals, unitWord(r, 1+r.Intn(3)))
+		} else {
+			vals = append(vals, word(true))
+		}
 	}
 	fixedCase(key, vals)
+}
+
+// sepCase: two bare words separated by white space (ASCII or a genuine Unicode space rune) are
+// two words: two filter terms, two projection fields, two members of a fixed list.
+func sepCase(w1, w2, sep string) {
+	ftext := "a:" + w1 + sep + "b:" + w2
+	ptext := w1 + sep + w2
+	xtext := "k@(" + w1 + sep + w2 + ")"
+	if mine() {
+		cid := id - 1
+		hx.Printf("case %d kind=sep w1=%s w2=%s sep=%s usp=%s tag=sep\n", cid, hx.HexS(w1), hx.HexS(w2), hx.HexS(sep), uspaces(w1+w2))
+		guarded(cid, func(out *strings.Builder) {
+			f, p, fx := "err", "err", "err"
+			if flt, err := benchproc.NewFilter(ftext); err == nil {
+				f = "ok:" + matchAll(flt, mkRes("X", "a", w1, "b", w2)) + matchAll(flt, mkRes("X", "a", w1))
+			}
+			var pp benchproc.ProjectionParser
+			if pr, err := pp.Parse(ptext, nil); err == nil {
+				var names []string
+				for _, fld := range pr.Fields() {
+					names = append(names, fld.Name)
+				}
+				p = "ok:" + hx.HexListS(names)
+			}
+			star, _ := benchproc.NewFilter("*")
+			var pp2 benchproc.ProjectionParser
+			if _, err := pp2.Parse(xtext, star); err == nil {
+				fx = "ok:" + matchAll(star, mkRes("X", "k", w1)) + matchAll(star, mkRes("X", "k", w2)) + matchAll(star, mkRes("X", "k", w1+sep+w2))
+			}
+			fmt.Fprintf(out, "sobs %d f=%s p=%s fx=%s\n", cid, f, p, fx)
+		})
+	}
+	exprCase(ftext, "sep")
+	exprCase(ptext, "sep")
+	exprCase(xtext, "sep")
 }
 
 func unqCase(text string) {
@@ -803,6 +869,11 @@ func main() {
 			case "bare":
 				t, _ := hx.Field(l, "w")
 				bareCase(string(hx.UnHex(t)))
+			case "sep":
+				a, _ := hx.Field(l, "w1")
+				b, _ := hx.Field(l, "w2")
+				c, _ := hx.Field(l, "sep")
+				sepCase(string(hx.UnHex(a)), string(hx.UnHex(b)), string(hx.UnHex(c)))
 			case "fixed":
 				k, _ := hx.Field(l, "key")
 				v, _ := hx.Field(l, "vals")
@@ -867,6 +938,19 @@ func main() {
 		genFixed(r)
 	}
 
+	// 0d. characters containing the bytes 0x85 / 0xA0, and Unicode spaces as separators
+	for _, w := range []string{"à", "Р", "х", "ą", "慠", "\x85", "\xa0", "aàb", "kР", "xх", "a\xa0b", "à/Р"} {
+		bareCase(w)
+		fixedCase("k", []string{w, "y" + w})
+	}
+	for _, sp := range uniSeps {
+		sepCase("kà", "jР", sp)
+		sepCase("x", "y", sp)
+	}
+	for i, n := 0, hx.N(1200, 25000); i < n; i++ {
+		sepCase("k"+unitWord(r, r.Intn(3)), "j"+unitWord(r, r.Intn(3)), hx.Pick(r, uniSeps))
+	}
+
 	// 1. exhaustive over the special alphabet
 	maxLen := 3
 	if hx.Tier() == "thorough" {
@@ -890,6 +974,10 @@ func main() {
 	}
 	// 3. bare words
 	for i, n := 0, hx.N(1500, 40000); i < n; i++ {
+		if r.Chance(1, 2) {
+			bareCase(unitWord(r, 1+r.Intn(4)))
+			continue
+		}
 		l := 1 + r.Intn(6)
 		b := make([]byte, l)
 		for j := range b {
